@@ -51,6 +51,9 @@ CONSTANTS
                  \*  "warm-class-only":    after the keyed-hub join only keys classified warm at trackKeys time get the
                  \*                       post-join snapshot / needsBroadcast; a key the client tracked at the server's then
                  \*                       current version whose entry advanced before the join is left behind
+                 \*  "revoke-ignores-pending": the unfiltered SharedPollRevokeKeys deletes the itemIndex entry without the
+                 \*                       pendingHubJoin guard: an entry reserved by another connection's in-flight track
+                 \*                       (between trackKeys and addSubscribers) is deleted under it
                  \*  "no-epoch-check":     epoch races: (a) a broadcast computed under one epoch is delivered to a
                  \*                       subscription of another epoch (the per-connection key state carries no
                  \*                       epoch), (b) the items of a response / publish are applied after a concurrent
@@ -442,7 +445,7 @@ RevEnd ==                                       \* removeAllSubscribers + itemIn
   /\ rv.pc = "removal" /\ rv.c = None /\ rv.tg = {}
   /\ rv' = NoRv
   /\ hub' = [hub EXCEPT ![rv.k] = {}]
-  /\ entry' = IF pend[rv.k] = 0 THEN [entry EXCEPT ![rv.k] = NoEntry] ELSE entry
+  /\ entry' = IF pend[rv.k] = 0 \/ "revoke-ignores-pending" \in AsCoded THEN [entry EXCEPT ![rv.k] = NoEntry] ELSE entry
   /\ UNCHANGED <<bvars, sep, pend, vctr, notifq, cvars, mvars, th, ops>>
   /\ Silent /\ step' = [act |-> "RevEnd"]
 
@@ -507,6 +510,9 @@ VersionConsistent ==
   \A c \in Conns, k \in Keys : (ks[c][k].tr /\ cst[c][k] = "tracked") => cver[c][k] = ks[c][k].ver
 
 TypeOK == (\A k \in Keys : pend[k] >= 0) /\ ops <= MaxOps
+\* a key with subscribers in the keyed hub (or a reservation) has its itemIndex entry: otherwise it is never polled
+\* and direct publishes are dropped
+HubHasEntry == \A k \in Keys : (hub[k] # {} \/ pend[k] > 0) => entry[k].ex
 
 \* liveness: eventually every tracking connection has the newest payload of the key, for good
 AllFresh == \A c \in Conns, k \in Keys : cst[c][k] = "tracked" => cdata[c][k] = bk[k].data
